@@ -20,7 +20,9 @@ pub const DEF: PropDef = PropDef {
            parse back to the value (absent extension block -> empty one; DH/ECDH -> opaque body) consuming everything, and re-serialize to the same bytes; records = 1..6 such \
            messages of one content type within 16640 bytes, and records obtained by parsing generated valid records; extensions = SNI / max-fragment-length / supported-groups \
            values and lists through gen_tls_extension(s) and the extension parsers; unsupported = every other handshake variant, alert / application data / heartbeat messages, \
-           every other extension, and records or lists containing one: GenError::NotYetImplemented. Non-trivial = a supported value with a non-empty variable field, or an \
+           every other extension, and records or lists containing one: GenError::NotYetImplemented; writers = the same records and extension lists through cookie_factory::gen \
+           into a Vec, into byte slices and cursors of every capacity around the full length (and sampled smaller ones) and into a writer that accepts a few bytes per call: \
+           Ok only with exactly the reference bytes written and the reported position equal to their number (also for two records in a row), otherwise an error. Non-trivial = a supported value with a non-empty variable field, or an \
            unsupported one; distinct by hash of the model value.",
     assumptions: &["the harness's RFC encoder (vmodel) is the reference for the emitted bytes; an absent extension block is emitted as a zero length (as the statement describes)", "built with the crate's `serialize` feature"],
     run,
@@ -31,6 +33,7 @@ pub const SUBS: &[SubDef] = &[
     SubDef { prop: "C09", name: "records", oracle: records },
     SubDef { prop: "C09", name: "extensions", oracle: extensions },
     SubDef { prop: "C09", name: "unsupported", oracle: unsupported },
+    SubDef { prop: "C09", name: "writers", oracle: writers },
 ];
 
 fn run(ctx: &Ctx) {
@@ -38,6 +41,7 @@ fn run(ctx: &Ctx) {
     ctx.run_tape("records", records, ctx.pick(50_000, 250_000), 1200);
     ctx.run_tape("extensions", extensions, ctx.pick(50_000, 250_000), 400);
     ctx.run_tape("unsupported", unsupported, ctx.pick(40_000, 200_000), 300);
+    ctx.run_tape("writers", writers, ctx.pick(6_000, 60_000), 700);
 }
 
 /// a serializable handshake value
@@ -257,6 +261,116 @@ fn records(t: &mut Tape, obs: &mut Obs) -> R {
             ensure!(re.as_ref().ok() == Some(&bytes), "C09:record:reserialize", "re-serializing the parsed record does not reproduce the bytes");
         }
         Err(e) => return fail("C09:record:unparsable", format!("serialized record cannot be parsed back ({}): {}", e, hex_short(&bytes))),
+    }
+    Ok(())
+}
+
+/// a writer that takes at most `step` bytes per call (legal for io::Write) and at most `cap` in total
+struct Trickle {
+    got: Vec<u8>,
+    step: usize,
+    cap: usize,
+}
+impl std::io::Write for Trickle {
+    fn write(&mut self, b: &[u8]) -> std::io::Result<usize> {
+        let n = b.len().min(self.step).min(self.cap - self.got.len());
+        self.got.extend_from_slice(&b[..n]);
+        Ok(n)
+    }
+    fn flush(&mut self) -> std::io::Result<()> {
+        Ok(())
+    }
+}
+
+/// the serializers through cookie_factory::gen with destinations other than an unbounded Vec
+fn writers(t: &mut Tape, obs: &mut Obs) -> R {
+    use cookie_factory::gen;
+    let version = gen_version(t);
+    let which = t.below(3);
+    // the value, its reference bytes, and a closure-free way to serialize it into any writer
+    let msgs: Vec<MMsg> = if which == 0 { vec![MMsg::Ccs; 1 + t.small(4)] } else { (0..1 + t.small(3)).map(|_| MMsg::Hs(gen_supported(t, 200))).collect() };
+    let exts: Vec<MExt> = (0..t.small(5)).map(|_| gen_ser_ext(t)).collect();
+    let crate_msgs: Vec<TlsMessage> = msgs.iter().map(mk::msg).collect();
+    let crate_exts: Vec<TlsExtension> = exts.iter().map(mk_ext).collect();
+    let rec = TlsPlaintext { hdr: TlsRecordHeader { record_type: TlsRecordType(if which == 0 { 0x14 } else { 0x16 }), version: TlsVersion(version), len: t.u16() }, msg: crate_msgs };
+    let is_rec = which != 2;
+    let want: Vec<u8> = if is_rec {
+        let mut payload = Vec::new();
+        for m in &msgs {
+            match m {
+                MMsg::Hs(h) => payload.extend(reference_bytes(h)),
+                _ => payload.push(1),
+            }
+        }
+        let mut e = Enc::new();
+        e.u8(rec.hdr.record_type.0);
+        e.u16(version);
+        e.vec(2, "rec.len", &payload);
+        e.buf
+    } else {
+        // the block as gen_simple writes it into an unbounded Vec (checked against the parsers by the `extensions` sub-check)
+        match guard("gen_tls_extensions", || gen_simple(gen_tls_extensions(&crate_exts), Vec::new()).ok())? {
+            Some(b) => b,
+            None => return Ok(()),
+        }
+    };
+    let full = want.len();
+    let what = if is_rec { "gen_tls_plaintext" } else { "gen_tls_extensions" };
+    obs.nontrivial(fnv64(&want));
+    obs.sample_class(what, || json!({"serializer": what, "full_length": full, "hex": hex_short(&want)}));
+    // 1. Vec: bytes and position
+    let r = guard(what, || if is_rec { gen(gen_tls_plaintext(&rec), Vec::new()) } else { gen(gen_tls_extensions(&crate_exts), Vec::new()) }.map_err(|e| format!("{:?}", e)))?;
+    match r {
+        Ok((v, pos)) => {
+            ensure!(v == want, format!("C09:writers:{}:vec-bytes", what), "{} into a Vec: bytes differ from the RFC encoding: got {} expected {}", what, hex_short(&v), hex_short(&want));
+            ensure!(pos as usize == full, format!("C09:writers:{}:position", what), "{} into a Vec: {} bytes were produced but the reported position is {}", what, full, pos);
+        }
+        Err(e) => return fail(format!("C09:writers:{}:vec-failed", what), format!("{} into a Vec failed: {}", what, e)),
+    }
+    // 2. two in a row: the position adds up
+    if is_rec {
+        let r = guard(what, || gen(cookie_factory::sequence::tuple((gen_tls_plaintext(&rec), gen_tls_plaintext(&rec))), Vec::new()).map_err(|e| format!("{:?}", e)))?;
+        match r {
+            Ok((v, pos)) => ensure!(v.len() == 2 * full && pos as usize == 2 * full && v[..full] == want[..] && v[full..] == want[..], format!("C09:writers:{}:two-in-a-row", what), "two records in a row: {} bytes produced, position {}, expected {} each", v.len(), pos, full),
+            Err(e) => return fail(format!("C09:writers:{}:two-in-a-row", what), format!("two records in a row failed: {}", e)),
+        }
+    }
+    // 3. byte slices and cursors of bounded capacity
+    let mut caps: Vec<usize> = vec![0, 1, 2, 4, 5, 6, full.saturating_sub(2), full.saturating_sub(1), full, full + 1, full + 3];
+    for _ in 0..6 {
+        caps.push(t.below(full + 1));
+    }
+    for cap in caps {
+        for cursor in [false, true] {
+            obs.evals_add(1);
+            let mut buf = vec![0xEEu8; cap];
+            let r: Result<(usize, u64), String> = guard(what, || {
+                if cursor {
+                    let c = std::io::Cursor::new(&mut buf[..]);
+                    if is_rec { gen(gen_tls_plaintext(&rec), c) } else { gen(gen_tls_extensions(&crate_exts), c) }.map(|(c, pos)| (c.position() as usize, pos)).map_err(|e| format!("{:?}", e))
+                } else {
+                    let s = &mut buf[..];
+                    if is_rec { gen(gen_tls_plaintext(&rec), s) } else { gen(gen_tls_extensions(&crate_exts), s) }.map(|(rest, pos)| (cap - rest.len(), pos)).map_err(|e| format!("{:?}", e))
+                }
+            })?;
+            let dest = if cursor { "cursor" } else { "slice" };
+            match r {
+                Ok((written, pos)) => {
+                    ensure!(cap >= full, format!("C09:writers:{}:short-buffer-accepted", what), "{} into a {} of {} bytes succeeded although the value needs {} bytes: a length field announces bytes that were not written (written {}, position {})", what, dest, cap, full, written, pos);
+                    ensure!(written == full && pos as usize == full && buf[..full] == want[..], format!("C09:writers:{}:bounded-bytes", what), "{} into a {} of {} bytes: written {}, position {}, expected {} bytes equal to the RFC encoding", what, dest, cap, written, pos, full);
+                }
+                Err(e) => ensure!(cap < full, format!("C09:writers:{}:large-buffer-refused", what), "{} into a {} of {} bytes (the value needs {}) failed: {}", what, dest, cap, full, e),
+            }
+        }
+    }
+    // 4. a writer that accepts a few bytes per call: an error, or everything
+    let step = 1 + t.below(7);
+    let r = guard(what, || {
+        let w = Trickle { got: Vec::new(), step, cap: usize::MAX };
+        if is_rec { gen(gen_tls_plaintext(&rec), w) } else { gen(gen_tls_extensions(&crate_exts), w) }.map(|(w, pos)| (w.got, pos)).map_err(|e| format!("{:?}", e))
+    })?;
+    if let Ok((got, pos)) = r {
+        ensure!(got == want && pos as usize == full, format!("C09:writers:{}:short-writes", what), "{} into a writer taking {} byte(s) per call reported success with {} of {} bytes written (position {})", what, step, got.len(), full, pos);
     }
     Ok(())
 }
